@@ -95,6 +95,7 @@ CONSTANTS Kind,        \* "kinesis" | "embedded" | "httpapi"
           MaxLen,      \* steps per behaviour (generation only)
           LogOn,       \* FALSE: no history (exhaustive runs)
           MaxStarts,   \* (re)starts per behaviour (generation only)
+          ActOn,       \* TRUE: `act` holds the last action (counterexample export from exhaustive runs)
           Pre_LastRegress, Pre_ForgetWithheld, Dev_StateAtCompletion
 
 VARIABLES shards,      \* the stream: <<[lo, hi, par, closed], ...>>
@@ -113,10 +114,11 @@ VARIABLES shards,      \* the stream: <<[lo, hi, par, closed], ...>>
           whyS, whyF,  \* ghost: shards dropped by Dev_StateAtCompletion / Pre_ForgetWithheld
           bad,         \* ghost: violations produced by the last action
           nst,         \* (re)starts so far (generation only; stays 0 in exhaustive runs)
+          act,         \* the last action, only if ActOn
           hist
 
 vars == <<shards, up, R, known, asg, last, scur, own, cur, fin, finBy, pend, barr,
-          pcur, pfin, K, whyS, whyF, bad, nst, hist>>
+          pcur, pfin, K, whyS, whyF, bad, nst, act, hist>>
 
 D    == NInit * 64
 All  == 1..MaxShards
@@ -162,7 +164,11 @@ BadSeq(b) ==
       pres == SelectSeq(cand, LAMBDA c : \E y \in b : y.k = c.k /\ y.s = c.s)
   IN  [j \in 1..Len(pres) |-> CHOOSE y \in b : y.k = pres[j].k /\ y.s = pres[j].s]
 
-Log(r) == hist' = IF LogOn THEN Append(hist, r) ELSE hist
+NoAct == [a |-> "", s |-> 0, t |-> 0, r |-> 0]
+Log(r) == /\ hist' = IF LogOn THEN Append(hist, r) ELSE hist
+          /\ act' = IF ActOn THEN [a |-> r.a, s |-> IF "s" \in DOMAIN r THEN r.s ELSE 0,
+                                   t |-> IF "t" \in DOMAIN r THEN r.t ELSE 0,
+                                   r |-> IF "r" \in DOMAIN r THEN r.r ELSE 0] ELSE act
 
 InitShards ==
   [i \in 1..NInit |-> [lo |-> (i - 1) * 64, hi |-> i * 64, par |-> {}, closed |-> FALSE]]
@@ -174,7 +180,7 @@ Init ==
   /\ known = {} /\ asg = {} /\ last = 0 /\ scur = NoCur
   /\ own = Zero /\ cur = Zero /\ fin = {} /\ finBy = Zero
   /\ pend = FALSE /\ barr = {} /\ pcur = NoCur /\ pfin = {}
-  /\ K = NoK /\ whyS = {} /\ whyF = {} /\ bad = {} /\ nst = 0 /\ hist = <<>>
+  /\ K = NoK /\ whyS = {} /\ whyF = {} /\ bad = {} /\ nst = 0 /\ act = NoAct /\ hist = <<>>
 
 -----------------------------------------------------------------------------
 \* the stream's owner
